@@ -82,6 +82,12 @@ class MessageManager(interfaces.TokenInterface, interfaces.MessageManager):
             cancellable.cancel()
         self._active_exchanges = None
 
+        for _mid, cancellable in self._piggyback_opportunities.values():
+            # No empty ACK will be sent for requests whose handlers are being
+            # cancelled; without this, the timer fires into a closed transport
+            cancellable.cancel()
+        self._piggyback_opportunities = {}
+
         await self.message_interface.shutdown()
 
     #
